@@ -5,10 +5,11 @@
 # Writes seeded/<id>/verify.json; the worktree and its build output are removed at the end.
 set -u
 VERIF=/verif
-WT=/tmp/mv/wt
-export CARGO_TARGET_DIR=/tmp/mv/target
+LANE=${LANE:-mv}
+WT=/tmp/$LANE/wt
+export CARGO_TARGET_DIR=/tmp/$LANE/target
 export CARGO_NET_OFFLINE=true
-mkdir -p /tmp/mv
+mkdir -p /tmp/$LANE
 HEAD=$(git -C /repo rev-parse HEAD)
 if [ ! -d $WT ]; then git -C /repo worktree add --detach $WT $HEAD >/dev/null 2>&1 || exit 2; fi
 ids="$@"
@@ -44,4 +45,4 @@ EOF
   echo "$id clean=$rc_clean apply=$rc_apply patched=$rc_patched suite=$rc_suite passed=${npass:-}"
 done
 git -C /repo worktree remove --force $WT
-rm -rf /tmp/mv
+rm -rf /tmp/$LANE
